@@ -81,30 +81,59 @@ func RunLenValue(cfgc core.Config, scope core.Scope) *core.Result {
 					res.Obligations++
 					res.Count("lengths_of_slice_parameters", 1)
 					// climb through parentheses, arithmetic and min/max
-					var cur ast.Node = c
-					compared := false
-					for {
-						p := parents[cur]
-						switch x := p.(type) {
-						case *ast.ParenExpr:
-							cur = x
-							continue
-						case *ast.BinaryExpr:
-							switch x.Op {
-							case token.LSS, token.LEQ, token.GTR, token.GEQ, token.EQL, token.NEQ:
-								compared = true
-							case token.ADD, token.SUB, token.MUL, token.QUO:
+					var climb func(start ast.Node, depth int) bool
+					climb = func(start ast.Node, depth int) bool {
+						var cur ast.Node = start
+						compared := false
+						for {
+							p := parents[cur]
+							switch x := p.(type) {
+							case *ast.ParenExpr:
 								cur = x
 								continue
+							case *ast.BinaryExpr:
+								switch x.Op {
+								case token.LSS, token.LEQ, token.GTR, token.GEQ, token.EQL, token.NEQ:
+									compared = true
+								case token.ADD, token.SUB, token.MUL, token.QUO:
+									cur = x
+									continue
+								}
+							case *ast.CallExpr:
+								if f, ok := x.Fun.(*ast.Ident); ok && (f.Name == "min" || f.Name == "max") {
+									cur = x
+									continue
+								}
 							}
-						case *ast.CallExpr:
-							if f, ok := x.Fun.(*ast.Ident); ok && (f.Name == "min" || f.Name == "max") {
-								cur = x
-								continue
+							// lx := len(x): every use of the local must be compared
+							if as, ok := p.(*ast.AssignStmt); ok && depth < 2 && len(as.Lhs) == len(as.Rhs) {
+								for i, r := range as.Rhs {
+									if ast.Node(r) != cur {
+										continue
+									}
+									lid, ok := as.Lhs[i].(*ast.Ident)
+									if !ok {
+										return false
+									}
+									o := core.ObjOf(info, lid)
+									all, any := true, false
+									ast.Inspect(fd.Body, func(k ast.Node) bool {
+										if id, ok := k.(*ast.Ident); ok && id != lid && core.ObjOf(info, id) == o {
+											any = true
+											if !climb(id, depth+1) {
+												all = false
+											}
+										}
+										return true
+									})
+									return any && all
+								}
 							}
+							break
 						}
-						break
+						return compared
 					}
+					compared := climb(c, 0)
 					if !compared {
 						res.Add(core.Finding{Rule: "ARGS.lenvalue", Key: fmt.Sprintf("ARGS.lenvalue|%s|%s", name, pid.Name), Pos: core.Pos(c.Pos()), Func: name,
 							Msg: fmt.Sprintf("%s uses len(%s) as a value: the operand is only required to be long enough, so the result depends on how much storage follows the elements the call was asked to work on", name, pid.Name)})
